@@ -24,6 +24,9 @@ for rel in sorted(files):
     with warnings.catch_warnings():
         warnings.simplefilter("ignore")
         tree = canonicalise(ast.parse(open(p).read()))
+        if os.environ.get("VERIF_NOINLINE") != "1":
+            from sa.prenorm import inline_private_helpers_in_module, overridden_private_names
+            inline_private_helpers_in_module(tree, never=overridden_private_names(REPO))
     rec = {}
     for q, fn in alpha.qualnames(tree).items():
         d = alpha.describe(fn)
